@@ -1121,24 +1121,25 @@ class C04(Prop):
 
         p0 = positions(cleaned)
         hits = [k for k, p in enumerate(p0) if p > 0 and cleaned[p - 1] == "&"]
-        r1 = rerender(mutate(data, "&", NEUTRAL, owner))
-        r2 = rerender(mutate(data, "&", "<", owner))
+        # Swap the owner's `&` for the two characters whose escaped forms are as long as `&amp;`
+        # (`&#39;`, `&#34;`): every offset in escaped and in raw text is preserved, so a slice or
+        # truncate that cuts an entity cuts the same entity in the re-renders.  A data `&` that reached
+        # the output raw shows up as a raw `'` / `"` at the same place; the head of a cut entity stays `&`.
+        r1 = rerender(mutate(data, "&", "'", owner))
+        r2 = rerender(mutate(data, "&", '"', owner))
         if r1 is None or r2 is None:
             return "unconfirmable"
         p1, p2 = positions(r1), positions(r2)
         for k in hits:
-            if len(p1) == len(p0):
-                follows = p1[k] > 0 and r1[p1[k] - 1] == NEUTRAL
+            if len(p1) == len(p0) == len(p2):
+                a = r1[p1[k] - 1] if p1[k] > 0 else ""
+                b = r2[p2[k] - 1] if p2[k] > 0 else ""
+                if a == "'" and b == '"':
+                    return "data"
             else:
-                follows = (NEUTRAL + owner) in r1.upper()
-            if not follows:
-                continue
-            if len(p2) == len(p0):
-                still = p2[k] > 0 and r2[p2[k] - 1] == "&"
-            else:
-                still = r2.upper().count("&" + owner) >= cleaned.upper().count("&" + owner)
-            if not still:
-                return "data"
+                base1, base2 = cleaned.upper().count("'" + owner), cleaned.upper().count('"' + owner)
+                if r1.upper().count("'" + owner) > base1 and r2.upper().count('"' + owner) > base2:
+                    return "data"
         return "engine"
 
     def _site(self, case: dict[str, Any], ch: str, owners: list[str]) -> str:
